@@ -193,6 +193,7 @@ func (x *Exec) havocCall(fr *Frame, st *State, sig *types.Signature, why string,
 	for i := 0; i < sig.Results().Len(); i++ {
 		res = append(res, x.freshVal(st, "hres", sig.Results().At(i).Type()))
 	}
+	st.markBoundary()
 	k(st, fr, res)
 }
 
@@ -261,7 +262,11 @@ func (x *Exec) intFromMath(t Term) Term {
 
 // elemLeafSorts enumerates the leaf classes of a slice element type.
 func (x *Exec) elemClasses(et types.Type) (classes []string, sorts []string) {
-	x.forLeaves("elem:"+typeStr(et), et, func(class string, t types.Type, sp bool) {
+	return x.elemClassesOf(Term{}, et)
+}
+
+func (x *Exec) elemClassesOf(base Term, et types.Type) (classes []string, sorts []string) {
+	x.forLeaves(x.elemPrefix(base, et), et, func(class string, t types.Type, sp bool) {
 		classes = append(classes, class)
 		if sp {
 			sorts = append(sorts, sInt)
@@ -296,7 +301,8 @@ func (x *Exec) appendOp(fr *Frame, st *State, s, t Sl) Sl {
 		srt := sorts[ci]
 		A := x.classTermSort(st, class, arr(sInt, arr(sInt, srt)))
 		oldInner := mkSelect(A, s.Base)
-		src := mkSelect(A, t.Base)
+		srcClasses, _ := x.elemClassesOf(t.Base, et)
+		src := mkSelect(x.classTermSort(st, srcClasses[ci], arr(sInt, arr(sInt, srt))), t.Base)
 		var inner Term
 		if n.S == "1" {
 			e := mkSelect(src, t.Off)
@@ -328,11 +334,13 @@ func (x *Exec) copyOp(st *State, d, s Sl) Term {
 		srt := sorts[ci]
 		A := x.classTermSort(st, class, arr(sInt, arr(sInt, srt)))
 		oldInner := mkSelect(A, d.Base)
-		src := mkSelect(A, s.Base)
+		srcClasses, _ := x.elemClassesOf(s.Base, et)
+		src := mkSelect(x.classTermSort(st, srcClasses[ci], arr(sInt, arr(sInt, srt))), s.Base)
 		a2 := x.fresh("arr", arr(sInt, srt))
 		hi := x.def(st, "hi", app(sInt, "+", d.Off, n))
-		st.assume(Term{fmt.Sprintf("(forall ((j Int)) (! (and (=> (and (<= %s j) (< j %s)) (= (select %s j) (select %s (+ %s (- j %s))))) (=> (not (and (<= %s j) (< j %s))) (= (select %s j) (select %s j)))) :pattern ((select %s j))))",
-			d.Off.S, hi.S, a2.S, src.S, s.Off.S, d.Off.S,
+		srcIdx := app(sInt, "+", s.Off, app(sInt, "-", Term{"j", sInt}, d.Off))
+		st.assume(Term{fmt.Sprintf("(forall ((j Int)) (! (and (=> (and (<= %s j) (< j %s)) (= (select %s j) (select %s %s))) (=> (not (and (<= %s j) (< j %s))) (= (select %s j) (select %s j)))) :pattern ((select %s j))))",
+			d.Off.S, hi.S, a2.S, src.S, srcIdx.S,
 			d.Off.S, hi.S, a2.S, oldInner.S, a2.S), sBool})
 		x.setClass(st, class, mkStore(A, d.Base, a2))
 	}
@@ -353,7 +361,7 @@ func (x *Exec) libCall(fr *Frame, st *State, key string, callee *ssa.Function, a
 		if ok {
 			wi := wrapVerbIndex(f)
 			if wi >= 0 {
-				A := x.classTermSort(st, "elem:"+typeStr(va.GT.Underlying().(*types.Slice).Elem()), arr(sInt, arr(sInt, sIface)))
+				A := x.classTermSort(st, x.elemPrefix(va.Base, va.GT.Underlying().(*types.Slice).Elem()), arr(sInt, arr(sInt, sIface)))
 				inner := x.def(st, "werr", mkSelect(mkSelect(A, va.Base), app(sInt, "+", va.Off, intLit(int64(wi)))))
 				st.assume(x.wrapsOnly(e, inner))
 			} else {
@@ -543,7 +551,8 @@ func (x *Exec) applyContract(fr *Frame, st *State, c *Contract, sig *types.Signa
 	ev2 := &specEnv{x: x, st: st, old: pre, vars: env, c: c}
 	x.bindLets(ev2, c)
 	for _, en := range c.Ensures {
-		if en.MustFail {
+		if en.MustFail || clauseUsesCallLog(c, en.Text) {
+			// clauses about the callee's own call log describe its internals; they are proved on its body, not assumed here
 			continue
 		}
 		st.assume(ev2.evalBool(en.Text))
@@ -552,6 +561,7 @@ func (x *Exec) applyContract(fr *Frame, st *State, c *Contract, sig *types.Signa
 	if fr.depth == 0 {
 		x.propagationAfterCall(st, short, res)
 	}
+	st.markBoundary()
 	k(st, fr, res)
 }
 
@@ -584,7 +594,7 @@ func (x *Exec) pureResult(st *State, key string, sig *types.Signature, args []Va
 		case Sl:
 			et := a.GT.Underlying().(*types.Slice).Elem()
 			srt := x.heapSort(et)
-			A := x.classTermSort(st, "elem:"+typeStr(et), arr(sInt, arr(sInt, srt)))
+			A := x.classTermSort(st, x.elemPrefix(a.Base, et), arr(sInt, arr(sInt, srt)))
 			sorts = append(sorts, arr(sInt, srt), sInt, sInt)
 			ts = append(ts, mkSelect(A, a.Base), a.Off, a.Len)
 		default:
@@ -638,7 +648,7 @@ func (x *Exec) havocLocation(ev *specEnv, st *State, it string) {
 		switch b := base.(type) {
 		case Sl:
 			et := b.GT.Underlying().(*types.Slice).Elem()
-			classes, sorts := x.elemClasses(et)
+			classes, sorts := x.elemClassesOf(b.Base, et)
 			for i, class := range classes {
 				A := x.classTermSort(st, class, arr(sInt, arr(sInt, sorts[i])))
 				x.setClass(st, class, mkStore(A, b.Base, x.fresh("hv", arr(sInt, sorts[i]))))
@@ -723,4 +733,55 @@ func shortKey(key string) string {
 		s = s[i+1:]
 	}
 	return s
+}
+
+func mentionsCallLog(text string) bool {
+	for _, k := range []string{"ncalls(", "callarg(", "callres(", "pending("} {
+		if strings.Contains(text, k) {
+			return true
+		}
+	}
+	return false
+}
+
+// clauseUsesCallLog: the clause mentions the call log directly or through a let binding.
+func clauseUsesCallLog(c *Contract, text string) bool {
+	if mentionsCallLog(text) {
+		return true
+	}
+	dep := map[string]bool{}
+	for changed := true; changed; {
+		changed = false
+		for _, l := range c.Lets {
+			if dep[l.Name] {
+				continue
+			}
+			if mentionsCallLog(l.Text) || usesAny(l.Text, dep) {
+				dep[l.Name] = true
+				changed = true
+			}
+		}
+	}
+	return usesAny(text, dep)
+}
+
+func usesAny(text string, names map[string]bool) bool {
+	for n := range names {
+		for from := 0; ; {
+			i := strings.Index(text[from:], n)
+			if i < 0 {
+				break
+			}
+			i += from
+			end := i + len(n)
+			isId := func(b byte) bool {
+				return b == '_' || b >= '0' && b <= '9' || b >= 'a' && b <= 'z' || b >= 'A' && b <= 'Z'
+			}
+			if (i == 0 || !isId(text[i-1])) && (end == len(text) || !isId(text[end])) {
+				return true
+			}
+			from = i + 1
+		}
+	}
+	return false
 }
